@@ -356,6 +356,11 @@ where
             self.storage()
                 .replace_group_relays(&mls_group_id, welcome_preview.nostr_group_data.relays)
                 .map_err(|e| Error::Group(e.to_string()))?;
+
+            // The pending record was written when the welcome was received and may have been
+            // overwritten since (e.g. by another welcome naming the same MLS group id). Make
+            // the stored record mirror the MLS group that was actually joined.
+            self.sync_group_metadata_from_mls(&mls_group_id)?;
         }
 
         Ok(())
